@@ -11,7 +11,7 @@ import io
 from common import sx
 from props import c26_sweep as S
 
-MODE = 1      # 1 = the committed model follows the FIXED code (fixes/C26-validate-before-mutation.patch)
+MODE = 1      # 1 = the committed model follows the FIXED code (/repo fix commits 50629ec, ef452d1 + fixes/C26-arrayreduction-tmp-after-validate.patch)
 
 
 def _apply(trans, args, options):
